@@ -192,6 +192,13 @@ def rt_inputs(rng):
     bodies = [b'', b'A', b'AB', b'01', b'1234', b'12345', b'A1B2C3', b'AAAAAAAAAA', b'aaaaaaaaaa', b'.........', b'AAAAAAAA12', b'ABCDEFGH12345678',
               b'A' * 13, b'A' * 10, b'A' * 17, b'\xfaaaa', b'AB\rCDE', b'AB\r>ABC123>AB', b'\x85AB', bytes(range(128, 140)), b'*****', b'Hello, World!',
               b'\xab\xe4\xf6\xfc\xe9\xbb', b'AIMAIMAIM', b'aimaimaim', b'ab*de', b'A*B>C D', b'....', b'12*45', b'\x00\x01\x02', b'\x7f\x80\xff']
+    # capacity and length-header boundaries (largest symbol: 1558 codewords = 1555 Base 256 bytes = 3116 digits = 2335 C40 characters)
+    for n in (1554, 1555, 1556):
+        yield b'\xe1' * n
+    for n in (3116, 3117):
+        yield b'7' * n
+    for n in (2335, 2336):
+        yield b'A' * n
     for b in bodies:
         yield b
         for h in (H5, H6):
